@@ -245,13 +245,23 @@ func read[EntityT entity.Interface](def Definition, wrapper func(e *Entity) Enti
 		return *new(EntityT), fmt.Errorf("reference %s does not match the id of the %s it holds (%s)", ref, def.Typename, ops[0].Id())
 	}
 
-	return wrapper(&Entity{
+	e := wrapper(&Entity{
 		Definition: def,
 		ops:        ops,
 		lastCommit: rootHash,
 		createTime: createTime,
 		editTime:   editTime,
-	}), nil
+	})
+
+	// What is stored is only checked when it comes from a remote (merge). Data that is already
+	// behind a local reference can be just as wrong, and the code compiling or indexing an entity
+	// relies on the invariants Validate() checks (at least one operation, a create operation
+	// first, well-formed targets ...).
+	if err := e.Validate(); err != nil {
+		return *new(EntityT), errors.Wrapf(err, "invalid %s", def.Typename)
+	}
+
+	return e, nil
 }
 
 // childrenFirstOrder reorders the given commits (a set closed under the parent relation, with the
